@@ -143,6 +143,12 @@ sim::Result exec(const RunCfg &cfg0, const Bytes &stdin_data0, const std::vector
     size_t shown = 0;
     for (auto &t : r.tasks) { if (shown++ >= 60) { tl += " ..."; break; } snprintf(b, sizeof b, " %u:f%u:%s", t.step, t.fiber, t.name); tl += b; }
     if (!tl.empty()) line += "\n      tasks:" + tl;
+    if (const char *lt = getenv("LBZSIM_LASTTASKS")) {      // the end of the task-level schedule (for runs that do not terminate)
+      size_t nlast = (size_t)atoi(lt), from = r.tasks.size() > nlast ? r.tasks.size() - nlast : 0;
+      std::string tl2;
+      for (size_t i = from; i < r.tasks.size(); i++) { snprintf(b, sizeof b, " %u:f%u:%s", r.tasks[i].step, r.tasks[i].fiber, r.tasks[i].name); tl2 += b; }
+      line += "\n      last tasks:" + tl2;
+    }
     if (getenv("LBZSIM_EVENTS")) {
       size_t nshow = (size_t)atoi(getenv("LBZSIM_EVENTS"));
       static const char *on[] = {"?", "start", "lock", "wait", "signal", "bcast", "create", "join", "texit", "flock", "read", "write", "close", "open", "unlink", "stat", "meta", "kill", "sigsusp", "pexit", "sigrun", "wake", "task", "isatty"};
